@@ -13,6 +13,8 @@ pub struct Profile {
     pub many_max: u32,
     pub medium_max: u16,
     pub huge: bool,
+    /// thorough tier: 0.3% of the cases start from a map of 60000..140000 elements
+    pub big_cases: bool,
     /// 0 = plain only, 1 = tracked only, 2 = either
     pub family: u8,
     pub hash_modes: [u32; 4], // Good, Identity, Low, Collide
@@ -111,6 +113,7 @@ pub fn profile(prop: Prop, thorough: bool) -> Profile {
         many_max: if thorough { 600 } else { 260 },
         medium_max: if thorough { 8192 } else { 1024 },
         huge: false,
+        big_cases: thorough && matches!(prop, C01 | C03 | C04 | C05 | C06 | C08 | C09 | C11 | C12),
         family: 2,
         hash_modes: [5, 2, 2, 1],
         w: base_w(),
@@ -487,7 +490,7 @@ pub fn op_strategy(p: &Profile) -> BoxedStrategy<Op> {
     );
     add(w.remove_many, (slot(), 1u32..=many, any::<u16>()).prop_map(|(s, n, stride)| Op::RemoveMany { s, n, stride }).boxed());
     add(w.remove_all, slot().prop_map(|s| Op::RemoveAll { s }).boxed());
-    add(w.tight_shrink, slot().prop_map(|s| Op::TightShrink { s }).boxed());
+    add(w.tight_shrink, (slot(), any::<bool>()).prop_map(|(s, over)| Op::TightShrink { s, over }).boxed());
     add(w.remove_old, (slot(), 0u8..5, prop_oneof![3 => Just(0u8), 2 => 1u8..12]).prop_map(|(s, how, keep)| Op::RemoveOld { s, how, keep }).boxed());
     add(w.entry, (slot(), keysel(), chain()).prop_map(|(s, k, chain)| Op::Entry { s, k, chain }).boxed());
     add(w.rawmut, (slot(), keysel(), rawhow(), chain()).prop_map(|(s, k, how, chain)| Op::RawEntryMut { s, k, how, chain }).boxed());
@@ -649,8 +652,10 @@ fn prelude(p: &Profile) -> BoxedStrategy<Vec<Op>> {
     let many = p.many_max;
     let sets = p.w.set_point > 0;
     let maps = p.w.insert > 0;
-    (0u32..=many, prop::bool::weighted(0.8), 0u32..=many / 2, prop::bool::weighted(0.6), 0u8..8, 0u8..8)
-        .prop_map(move |(n0, t0, n1, t1, adv0, adv1)| {
+    let big_p = if p.big_cases { 0.003 } else { 0.0 };
+    (0u32..=many, prop::bool::weighted(0.8), 0u32..=many / 2, prop::bool::weighted(0.6), 0u8..8, 0u8..8, prop::bool::weighted(big_p), 60_000u32..140_000)
+        .prop_map(move |(n0, t0, n1, t1, adv0, adv1, big, nbig)| {
+            let n0 = if big { nbig } else { n0 };
             let mut v = Vec::new();
             if maps {
                 if n0 > 0 {
